@@ -14,8 +14,10 @@ import (
 
 func init() {
 	register(&Property{
-		ID:  "C06",
-		Gen: genC06,
+		ID:    "C06",
+		Files: []string{"queue.go"},
+		Funcs: []string{"LinkedListQueue"},
+		Gen:   genC06,
 		Rule: "one simulated thread runs a history of 1..40 operations over {Offer, Put, Push, Unshift, Poll, Take, Shift, Pop, Peek, Count, Clear, KeepNodePoolCount(n in -1..6), ClearNodePool} (each run enables a random subset, " +
 			"short histories favoured) on one LinkedListQueue viewed as the concrete type, Queue[T] and Stack[T], element type int or a struct; the sync.Pool behind the node free-list is simulated (drop on Put, reuse newest/oldest, fresh); " +
 			"a reference deque is stepped in lock-step (return values, errors, Count, Peek after every step, final drain from alternating ends); non-trivial = the history mixes head and tail removals or node-pool maintenance with >=3 elements stored; " +
